@@ -4,7 +4,7 @@ CONSTANTS
   Eth = {"e1", "e2"}
   Auths = {"a1", "a2", "a3"}
   SignerSets <- Sets2
-  MaxBurns = 3
+  MaxBurns = 2
   MaxMints = 1
   Merger = "overwrite"
   TicketStore = "first"
